@@ -46,6 +46,7 @@ pub fn read_file_to_string<S: HasFileSystem + TexlangState>(
     default_extension: &str,
 ) -> Result<(std::path::PathBuf, String), FileReadError> {
     check_no_file_area(&file_location)?;
+    check_has_base_directory(vm.working_directory.as_deref(), &file_location)?;
     let file_path = file_location.determine_full_path(
         vm.working_directory
             .as_ref()
@@ -72,6 +73,7 @@ pub fn read_file_to_bytes<S: HasFileSystem + TexlangState>(
     default_extension: &str,
 ) -> Result<(std::path::PathBuf, Vec<u8>), FileReadError> {
     check_no_file_area(&file_location)?;
+    check_has_base_directory(vm.working_directory.as_deref(), &file_location)?;
     let file_path = file_location.determine_full_path(
         vm.working_directory
             .as_ref()
@@ -104,6 +106,25 @@ fn check_no_file_area(file_location: &texlang::parse::FileLocation) -> Result<()
             ),
         }),
     }
+}
+
+/// A relative name is resolved against the working directory; without one (the VM could not
+/// determine it when it was created) `determine_full_path` panics.
+fn check_has_base_directory(
+    working_directory: Option<&std::path::Path>,
+    file_location: &texlang::parse::FileLocation,
+) -> Result<(), FileReadError> {
+    let has_base = working_directory.is_some_and(std::path::Path::is_absolute);
+    if has_base || std::path::Path::new(&file_location.path).is_absolute() {
+        return Ok(());
+    }
+    Err(FileReadError {
+        title: format!("could not read from `{}`", file_location.path),
+        underlying_error: std::io::Error::new(
+            std::io::ErrorKind::NotFound,
+            "the file name is relative and the working directory is not known",
+        ),
+    })
 }
 
 /// Error when reading a file.
